@@ -2,6 +2,8 @@
 // and the per-line padding step of its collection phase.  Imports TaggedLine (unit TE) and BorderHoriz (unit BH) under their contracts.
 use vstd::prelude::*;
 use std::fmt::Debug;
+macro_rules! html_trace { ($($t:tt)*) => {} }
+macro_rules! html_trace_quiet { ($($t:tt)*) => {} }
 verus! {
 //@import TE
 //@import BH
